@@ -21,6 +21,22 @@ EXTRA = [
 ]
 
 
+def _nbits(d):
+    t = 0
+    for v in d.values():
+        if v == 'bool':
+            t += 1
+        else:
+            m = max(abs(v[0]), abs(v[1])).bit_length() or 1
+            t += m + (1 if v[0] < 0 <= v[1] else 0)
+    return t
+
+
+def n_state_bits(sh):
+    """Approximate number of unprimed bits of the flexible variables."""
+    return _nbits(sh.env) + _nbits(sh.sys)
+
+
 def generated(seed, n, max_bits=10):
     rnd = random.Random(seed)
     out = list()
